@@ -2,7 +2,8 @@ from check import run_diff_property
 
 CFG = dict(
     streams=[('shutdown', 60, 800)],
-    oracle_ops={'shutdown', 'binsig'},
+    oracle_ops={'shutdown', 'shutdown2', 'binsig'},
+    project={'shutdown': lambda l: ' '.join(t for t in l.split(' ') if not t.startswith('counted='))},   # (the count is C16's)
     rule=("real stack: 0-3 idle keep-alive HTTP/1.1 connections, 0-3 open HTTP/2 connections, 0-3 clients stalled mid-handshake, "
           "optionally one HTTP/1.1 request in flight at a blocked backend; context cancelled (once / twice / before Serve is called); "
           "observed: Serve's return value and latency, the listening socket, a connection attempted afterwards, the idle connections, "
